@@ -35,6 +35,7 @@ type Vector struct {
 	Reach   []string          `json:"reach,omitempty"`
 	Msg     string            `json:"msg,omitempty"`
 	Approx  bool              `json:"approx,omitempty"` // path used an over-approximating model: observations are not comparable
+	MapDep  bool              `json:"map_order,omitempty"` // the path ran code under a non-default map iteration order (natively the order is random: the replay is repeated)
 }
 type VecVal struct {
 	Kind string `json:"kind"`
@@ -173,9 +174,13 @@ func (e *Engine) intrinsic(st *State, fr *Frame, in ssa.CallInstruction, name st
 		return nil
 	case "vfMapOrder":
 		st.mapMode = e.needInt(st, args[0], "map order mode")
+		if st.mapMode != 0 {
+			st.mapUsed = true
+		}
 		return nil
 	case "vfMapOrderSite": // (site int): permute only that range-over-map site
 		st.mapMode = 4
+		st.mapUsed = true
 		st.mapSite = e.needInt(st, args[0], "map site")
 		st.mapSiteCtr = 0
 		return nil
@@ -371,7 +376,7 @@ func (e *Engine) doAssert(st *State, id string, c *Term) {
 // buildVector extracts the values of the path's inputs from the current
 // solver model (call between a sat Check and Done).
 func (e *Engine) buildVector(st *State, expect string) *Vector {
-	v := &Vector{Entry: e.rep.entry, Pkg: e.rep.pkg, Expect: expect, Inputs: map[string]VecVal{}, Reach: append([]string(nil), st.reached...), Approx: st.approx}
+	v := &Vector{Entry: e.rep.entry, Pkg: e.rep.pkg, Expect: expect, Inputs: map[string]VecVal{}, Reach: append([]string(nil), st.reached...), Approx: st.approx, MapDep: st.mapUsed}
 	var ts []*Term
 	for _, in := range st.inputs {
 		for _, t := range in.t {
